@@ -334,9 +334,40 @@ func checkC10(c C10Case, r *Rec) *Violation {
 
 var propC10 = Prop[C10Case]{
 	ID:    "C10",
-	Rule:  "constant-dense typed random trees with custom operators (a drawn subset declared stateless, the rest not; the stateful c_cnt never), failing constant sub-expressions (division by zero, bad version, ill-typed / wrong-count built-in calls, c_fail) under deciding and non-deciding and/or operands and in if branches, x 16 optimization subsets x k = 1..5 repeated evaluations. Oracles: Compile always succeeds; the compile-time call log holds only declared-stateless operators and is empty without ConstantFolding; every evaluation performs exactly the custom-operator calls (arguments, results) of R on the dumped tree with the operators' state threaded through; without Reordering a succeeding left-to-right evaluation keeps its value; with ConstantFolding and Reordering both off the first evaluation makes exactly the registered-operator calls of left-to-right evaluation of the source (when that succeeds); with only ConstantFolding on, every place where the dump has a constant and the source a sub-tree satisfies the folding rule (validity predicate: folding less is fine). Non-trivial = an undeclared custom operator applied to constants only, or a failing constant sub-expression, or a variable under an and/or that a constant operand decides; distinct by source + stateless list + binding",
+	Rule:  "constant-dense typed random trees with custom operators (a drawn subset declared stateless, the rest not; the stateful c_cnt never), failing constant sub-expressions (division by zero, bad version, ill-typed / wrong-count built-in calls, c_fail) under deciding and non-deciding and/or operands and in if branches, x 16 optimization subsets x k = 1..5 repeated evaluations. Oracles: Compile always succeeds; the compile-time call log holds only declared-stateless operators and is empty without ConstantFolding; every evaluation performs exactly the custom-operator calls (arguments, results) of R on the dumped tree with the operators' state threaded through; without Reordering a succeeding left-to-right evaluation keeps its value; with ConstantFolding and Reordering both off the first evaluation makes exactly the registered-operator calls of left-to-right evaluation of the source (when that succeeds); with only ConstantFolding on, every place where the dump has a constant and the source a sub-tree satisfies the folding rule (validity predicate: folding less is fine). Whole-run bracket: 40 canary cases (compile-time calls, dump, two evaluations under four subsets) answer the same before the first and after the last case of the shard. Non-trivial = an undeclared custom operator applied to constants only, or a failing constant sub-expression, or a variable under an and/or that a constant operand decides; distinct by source + stateless list + binding",
 	Gen:   genC10,
 	Check: checkC10,
+}
+
+// c10Ask: compile-time calls, program and two evaluations under four subsets, for the whole-run bracket.
+func c10Ask(c C10Case) string {
+	u := &c.U
+	if u.RegMode == RegVarAndOp {
+		u.RegMode = RegGetOrReg // (RegVarAndOp assigns keys in Go map order: not a function of the case)
+	}
+	src := m.Render(c.Tree)
+	out := ""
+	for _, mask := range []int{0, MaskFold, 15, MaskFold | MaskNest} {
+		log := &Log{}
+		cc, _ := NewConfig(u, log, Build{Mask: mask, How: HowMapAll, Costs: c.Costs})
+		e, co := SafeCompile(cc, src)
+		if co.Panic != nil || co.Err != nil {
+			out += fmt.Sprintf("%s: compile %v\n", maskName(mask), co)
+			continue
+		}
+		out += fmt.Sprintf("%s: compile-time calls %v\n%s\n", maskName(mask), m.TraceStrings(log.Ev), eval.Dump(e))
+		for k := 0; k < 2; k++ {
+			log.Reset()
+			f := NewFetcher(u, cc, log)
+			o := Safe(func() (eval.Value, error) { return e.Eval(f.Ctx()) })
+			out += fmt.Sprintf("  eval %d: %v calls %v\n", k+1, o, m.TraceStrings(log.Ev))
+		}
+	}
+	return out
+}
+
+func init() {
+	propC10.Before, propC10.After = canaryBracket("C10", 40, genC10, c10Ask)
 }
 
 func TestC10(t *testing.T)       { Run(t, propC10) }
